@@ -1,0 +1,57 @@
+//! Verification hooks. Compiled only with `--cfg btdht_verif`; nothing here is part of the
+//! crate's normal API.
+
+pub use crate::bucket::{Bucket, MAX_BUCKET_SIZE};
+pub use crate::node::{Node, NodeHandle, NodeStatus};
+pub use crate::storage::AnnounceStorage;
+pub use crate::table::{leading_bit_count, ClosestNodes, RoutingTable, MAX_BUCKETS};
+pub use crate::token::{Token, TokenStore};
+pub use crate::transaction::{AIDGenerator, ActionID, MIDGenerator, TransactionID};
+
+/// Per-thread event counters, keyed by node id (test runtimes are single threaded, so all tasks
+/// of a node run on the thread that reads the counters).
+pub mod counters {
+    use crate::info_hash::NodeId;
+    use std::{cell::RefCell, collections::HashMap};
+
+    #[derive(Clone, Copy, Debug, Default, PartialEq, Eq)]
+    pub struct Counters {
+        /// Number of routing-table refresh rounds performed.
+        pub refresh_rounds: u64,
+        /// Number of times the handler observed a bootstrap completion.
+        pub bootstrap_completions: u64,
+        /// Refresh checks currently scheduled in the handler's timer.
+        pub pending_refresh_checks: usize,
+        /// All checks currently scheduled in the handler's timer.
+        pub pending_checks: usize,
+    }
+
+    thread_local! {
+        static COUNTERS: RefCell<HashMap<NodeId, Counters>> = RefCell::new(HashMap::new());
+    }
+
+    pub fn reset() {
+        COUNTERS.with(|c| c.borrow_mut().clear());
+    }
+
+    pub fn get(id: NodeId) -> Counters {
+        COUNTERS.with(|c| c.borrow().get(&id).copied().unwrap_or_default())
+    }
+
+    pub(crate) fn refresh_round(id: NodeId) {
+        COUNTERS.with(|c| c.borrow_mut().entry(id).or_default().refresh_rounds += 1);
+    }
+
+    pub(crate) fn bootstrap_completion(id: NodeId) {
+        COUNTERS.with(|c| c.borrow_mut().entry(id).or_default().bootstrap_completions += 1);
+    }
+
+    pub(crate) fn pending(id: NodeId, refresh: usize, all: usize) {
+        COUNTERS.with(|c| {
+            let mut c = c.borrow_mut();
+            let e = c.entry(id).or_default();
+            e.pending_refresh_checks = refresh;
+            e.pending_checks = all;
+        });
+    }
+}
